@@ -96,6 +96,8 @@ def short_fn(fn):
 
 def cell_of_report(rep):
     fr = " ".join(rep["frames"])
+    if "Interrupt::registerCallback" in fr:
+        return "(anonymous namespace)::callback"
     for cell, (_, fns, _, _) in CANDIDATES.items():
         if any(short_fn(f).split("::")[-1] in fr and short_fn(f).split("::")[0] in fr for f in fns):
             return cell
